@@ -230,18 +230,18 @@ def run(ctx):
                 metas.append((cid + ("totals",), dict(scenario=sc, transform=tr), "c13-relabel-changes-counts", "relabelling patches changes the total pair counts"))
                 ts = flat_sampled(rt["cross"] + rt["auto"], perm)
                 if finite(b_samp) and finite(ts):
-                    terms.append("c13_case false %s %s" % (fq.qlist(b_samp), fq.qlist(ts)))
+                    terms.append("c13_case_scaled %s %s" % (fq.qlist(b_samp), fq.qlist(ts)))
                     metas.append((cid + ("samples",), dict(scenario=sc, transform=tr, perm=perm), "c13-relabel-changes-samples",
                                   "relabelling patches changes amplitudes / covariance or does not permute the jackknife samples accordingly"))
             elif tr.startswith("weight"):
                 ts, tn = flat_sampled(rt["cross"]), nz(rt)
                 bs = flat_sampled(rb["cross"])
                 if finite(bs) and finite(ts):
-                    terms.append("c13_case %s %s %s" % (fq.b(exact), fq.qlist(bs), fq.qlist(ts)))
+                    terms.append(("c13_case true %s %s" if exact else "c13_case_scaled %s %s") % (fq.qlist(bs), fq.qlist(ts)))
                     metas.append((cid + ("amp",), dict(scenario=sc, transform=tr), "c13-weight-scale-changes-amplitudes",
                                   "multiplying all weights of one catalog by a positive constant changes the correlation amplitudes / covariance"))
                 if finite(b_nz) and finite(tn):
-                    terms.append("c13_case %s %s %s" % (fq.b(exact), fq.qlist(b_nz), fq.qlist(tn)))
+                    terms.append(("c13_case true %s %s" if exact else "c13_case_scaled %s %s") % (fq.qlist(b_nz), fq.qlist(tn)))
                     metas.append((cid + ("nz",), dict(scenario=sc, transform=tr), "c13-weight-scale-changes-nz",
                                   "multiplying all weights of one catalog by a positive constant changes the redshift estimate"))
             else:
